@@ -334,7 +334,7 @@ def gen_scenario(rng, tier):
         transfers.append(t)
     user = rng.choice(['exit', 'exit', 'shutdown', 'cancel', 'cancel', 'ctrl-c-block', 'ctrl-c-result', 'exception-block'])
     return {'cfg': cfg, 'transfers': transfers, 'user': user, 'after_steps': rng.choice([0, 1, 3, 6, 10, 20, 40, 80]),
-            'cancel_transfer': rng.randrange(len(transfers)), 'mode': rng.choice(['uniform', 'sticky', 'pct']),
+            'cancel_transfer': rng.randrange(len(transfers)), 'mode': rng.choice(['uniform', 'sticky', 'pct', 'stall']),
             'sched_seed': rng.randrange(1 << 30), 'collect': rng.random() < 0.6}
 
 
